@@ -809,6 +809,21 @@ class Exec(Engine):
             out.append((s2, v))
         return out
 
+    def eval_clause_lambda(self, lam, args, st):
+        """a lambda of a contract clause, evaluated in spec mode"""
+        saved = self.mode
+        self.mode = 'spec'
+        self.frames.append(Frame(None))
+        try:
+            res = self.call_lambda(VFunc(('lambda', lam), None, {}), args,
+                                   st)
+        finally:
+            self.frames.pop()
+            self.mode = saved
+        if len(res) != 1 or isinstance(res[0][1], Raise):
+            raise Unsupported('clause lambda forks')
+        return res[0][1]
+
     def call_inline(self, fn, fv, args, kwargs, st, node=None):
         if fn.qual in self.inline_stack:
             raise Unsupported('recursive function %s needs a contract' %
@@ -894,6 +909,10 @@ class Exec(Engine):
                         when, pre, env, old=self._with_env(pre, env)), pre))
                 if ex.feasible():
                     msg = VStr(fresh('msg', so.S))
+                    lam = c.raises_msg.get(exc)
+                    if lam is not None:
+                        ex.assume(self.truth(self.eval_clause_lambda(
+                            lam, [msg], ex), ex))
                     results.append((ex, Raise(VExc(exc, (msg,), line))))
         finally:
             self.frames.pop()
